@@ -45,21 +45,22 @@ const (
 
 // signatures
 const (
-	sigOverAdmit      = "C19/token_bucket/over-admit"                       // + /helper | /egress | /ingress
-	sigStarvedFrac    = "C19/token_bucket/starved/fractional-refill"        // arrivals whose gap earns a non-integral number of bytes
-	sigStarvedInt     = "C19/token_bucket/starved/integral-refill"          // every gap earns a whole number of bytes
-	sigRate0          = "C19/token_bucket/rate0-dropped"                    // + layer
-	sigState          = "C19/token_bucket/state"                            // + /<what>
-	sigKeyNotFound    = "C19/manager/bucket-not-at-packet-address"          // Set succeeded, datapath lookup of the subscriber's address misses
-	sigIngressBurst   = "C19/manager/ingress-burst-not-from-policy"         // stored ingress burst != configured burst
-	sigFields         = "C19/manager/bucket-fields"                         // + /<field>
-	sigRemove         = "C19/manager/remove-leaves-bucket"                  // + dir
-	sigEnforcedOver   = "C19/enforced/over-admit"                           // + dir : traffic exceeds the configured contract
-	sigEnforcedRate0  = "C19/enforced/rate0-dropped"                        // + dir
-	sigEnforcedRemove = "C19/enforced/limited-after-remove"                 // + dir
-	sigOther          = "C19/enforced/other-address-limited"                // frame of an address without policy dropped
-	sigPriority       = "C19/enforced/priority-not-applied"                 // admitted egress frame does not carry the policy priority
-	sigFault          = "C19/fault"                                         // + prog
+	sigOverAdmit      = "C19/token_bucket/over-admit"                // + /helper | /egress | /ingress
+	sigStarvedFrac    = "C19/token_bucket/starved/fractional-refill" // gaps earn a non-integral number of bytes and the shortfall is < 1 byte per arrival
+	sigStarvedInt     = "C19/token_bucket/starved/integral-refill"   // every gap earns a whole number of bytes
+	sigStarvedBeyond  = "C19/token_bucket/starved/beyond-truncation" // fractional gaps, but the shortfall exceeds one byte per arrival
+	sigRate0          = "C19/token_bucket/rate0-dropped"             // + layer
+	sigState          = "C19/token_bucket/state"                     // + /<what>
+	sigKeyNotFound    = "C19/manager/bucket-not-at-packet-address"   // Set succeeded, datapath lookup of the subscriber's address misses
+	sigIngressBurst   = "C19/manager/ingress-burst-not-from-policy"  // stored ingress burst != configured burst
+	sigFields         = "C19/manager/bucket-fields"                  // + /<field>
+	sigRemove         = "C19/manager/remove-leaves-bucket"           // + dir
+	sigEnforcedOver   = "C19/enforced/over-admit"                    // + dir : traffic exceeds the configured contract
+	sigEnforcedRate0  = "C19/enforced/rate0-dropped"                 // + dir
+	sigEnforcedRemove = "C19/enforced/limited-after-remove"          // + dir
+	sigOther          = "C19/enforced/other-address-limited"         // frame of an address without policy dropped
+	sigPriority       = "C19/enforced/priority-not-applied"          // admitted egress frame does not carry the policy priority
+	sigFault          = "C19/fault"                                  // + prog
 )
 
 func inconclusive(format string, args ...any) {
@@ -331,6 +332,31 @@ func newPlane(t testing.TB, c *bpfnative.Client) *plane {
 	}
 	p.mgr.VerifSetMaps(p.egress, p.ingress, stats)
 	return p
+}
+
+// tokenUnit is the number of units of the bucket's `tokens` field per byte (1 when tokens are bytes).
+// The statement does not fix the unit; it is only needed to GENERATE initial bucket states on the
+// helper layer ("full as the manager writes it", "any fill level 0..burst").  It is read off a bucket the
+// real manager writes ("Start with full bucket": tokens = burst * unit).  A wrong guess cannot cause a
+// false alarm: token_bucket_check caps the fill level at the burst before it decides.
+func detectTokenUnit(t testing.TB, c *bpfnative.Client) uint64 {
+	p := newPlane(t, c)
+	p.wipe()
+	const burst = 1000
+	if err := p.mgr.SetSubscriberQoS(&qos.SubscriberQoS{IP: net.IPv4(1, 2, 2, 1), DownloadBPS: 8000, UploadBPS: 8000, BurstBytes: burst}); err != nil {
+		inconclusive("SetSubscriberQoS for token-unit detection: %v", err)
+	}
+	unit := uint64(1)
+	if k, err := p.egress.NextKeyBytes(nil); err == nil && k != nil {
+		if v, err := p.egress.LookupBytes(k); err == nil && len(v) == bucketSz {
+			if b := parseBucket(v); b.Burst == burst && b.Tokens >= burst && b.Tokens%burst == 0 {
+				unit = b.Tokens / burst
+			}
+		}
+	}
+	p.wipe()
+	vstat.Note("token_unit_per_byte", unit)
+	return unit
 }
 
 // wipe empties the kernel maps (between cases) through raw iteration.
